@@ -1,11 +1,11 @@
 SPECIFICATION Spec
 CONSTANTS
-  Calls = {1, 2, 3}
+  Calls = {1, 2, 3, 4}
   Hashes <- ModelHashes2
   MaxLanes = 1
-  Kinds = {"line", "pchan"}
+  Kinds = {"line"}
   LaneCounts = {1}
-  QSizes = {0, 1}
+  QSizes = {1}
   HashBits = 3
   Fails = {FALSE}
   Pres = {FALSE}
